@@ -219,6 +219,34 @@ def run(tier, seed):
                                                        "why": "any_iter over a %s container%s with %s items yielded %r, expected the first %d of the %d items (%r)"
                                                        % (cont, " given through an awaitable" if outer else "", kind, got, take, n, err)})
                     break
+    # ---- any_iter over a caller-owned regular generator that the consumer leaves early: what was not asked for is still the
+    # caller's (the generator is neither closed nor read ahead), given directly or through an awaitable
+    for n in (1, 2, 5):
+        base = mk_items(n)
+        for outer in (False, True):
+            for take in range(0, n + 1):
+                def gen_of(xs):
+                    for x in xs:
+                        yield x
+                g = gen_of(base)
+                obj = g
+                if outer:
+                    async def o(g=g):
+                        return g
+                    obj = o()
+                try:
+                    got = drive(take_n(a.any_iter(obj), take, []))
+                    rest = list(g)
+                    err = None
+                except BaseException as e:  # noqa
+                    got, rest, err = None, None, e
+                rep.count(("any_iter-owned-generator", n, outer, take), True)
+                if err is not None or len(got) != take or rest is None or len(rest) != n - take or builtins.any(x is not y for x, y in builtins.zip(rest, base[take:])):
+                    fails += 1
+                    rep.violation("adapters:any_iter", {"shape": [outer, "generator", "plain"], "items": n, "take": take,
+                                                       "why": "any_iter over a regular generator%s, closed after %d of %d items: yielded %r, the generator then still holds %r (expected the remaining %d items) (%r)"
+                                                       % (" given through an awaitable" if outer else "", take, n, got, rest, n - take, err)})
+                    break
     # ---- await_each
     for n in range(0, 7):
         base = mk_items(n)
@@ -273,6 +301,39 @@ def run(tier, seed):
                 rep.violation("adapters:apply", {"positional": na, "keyword": nk, "why": "order of awaiting the arguments and calling: %r, expected %r" % (order, want)})
                 continue
             texts.append("CApply [%s] [%s] [%s]" % ("; ".join(coq_val(x) for x in vals[:na]), "; ".join(coq_val(x) for x in vals[na:]), "; ".join(coq_ev(e) for e in log)))
+    # apply awaits every argument it is given, each one individually: awaitable *objects* that compare equal to each other
+    # (value objects) or that are unhashable are arguments like any other
+    class _ValAw:
+        def __init__(self, name, v):
+            self.name, self.v = name, v
+
+        def __await__(self):
+            return self.v
+            yield
+
+        def __eq__(self, other):
+            return isinstance(other, _ValAw) and self.name == other.name
+
+        def __hash__(self):
+            return hash(self.name)
+
+    class _UnhashAw(_ValAw):
+        __hash__ = None
+    for cls_ in (_ValAw, _UnhashAw):
+        for npos in range(0, 4):
+            vals = [cls_("q", i + 1) for i in range(3)]
+            kw = {"k%d" % i: v for i, v in enumerate(vals[npos:])}
+            try:
+                got = drive(a.apply(lambda *p, **k: (p, tuple(sorted(k.items()))), *vals[:npos], **kw))
+                want = (tuple(v.v for v in vals[:npos]), tuple(sorted((k_, v.v) for k_, v in kw.items())))
+                why = None if got == want else "apply called the function with %r, expected %r" % (got, want)
+            except BaseException as e:  # noqa
+                why = "apply failed with %r" % (e,)
+            rep.count(("apply-value-awaitables", cls_.__name__, npos), True)
+            if why:
+                fails += 1
+                rep.violation("adapters:apply", {"awaitables": "equal-but-distinct" if cls_ is _ValAw else "unhashable", "positional": npos, "keyword": 3 - npos, "why": why})
+                break
     # ---- sync: same result / exception; coroutine functions returned unchanged
     class Boom(TypeError):       # (a TypeError, which an adapter might be tempted to handle for its own purposes)
         pass
